@@ -196,8 +196,12 @@ Silence(pre, fn, x) ==
    by equality, its scrollback by the suffix relation (ParkedOK) *)
 ParkedView(t) == IF t.alt /\ t.lim >= 0 /\ Len(t.other.lines) >= t.other.rows THEN LastN(t.other.lines, t.other.rows) ELSE t.other.lines
 ParkedOK(a, b) == ~(a.alt /\ a.lim >= 0) \/ SuffixOf(a.other.lines, b.other.lines) \/ SuffixOf(b.other.lines, a.other.lines)
-Normal(t, dr) == [t EXCEPT !.buf.lines = dr \o @, !.buf.trim = FALSE, !.other.trim = FALSE, !.other.lines = ParkedView(t), !.dirty = <<>>]
-ViewNormal(t) == [t EXCEPT !.buf.lines = View(t.buf), !.buf.trim = FALSE, !.other.trim = FALSE, !.other.lines = ParkedView(t), !.dirty = <<>>]
+(* while the PRIMARY screen shows, the alternate buffer is dead state: every entry clears it and re-sizes it, so what an
+   implementation keeps there in the meantime (stale content, stale size, nothing at all) cannot be observed *)
+NoOther == [lines |-> <<>>, cols |-> 0, rows |-> 0, lim |-> 0, trim |-> FALSE]
+OtherNormal(t) == IF t.alt THEN [t.other EXCEPT !.trim = FALSE, !.lines = ParkedView(t)] ELSE NoOther
+Normal(t, dr) == [t EXCEPT !.buf.lines = dr \o @, !.buf.trim = FALSE, !.other = OtherNormal(t), !.dirty = <<>>]
+ViewNormal(t) == [t EXCEPT !.buf.lines = View(t.buf), !.buf.trim = FALSE, !.other = OtherNormal(t), !.dirty = <<>>]
 (* blame of a one-function step, by function AND diverging component              *)
 CtxLeaves == {"col", "row", "pw", "pen", "origin", "autowrap", "saved", "asaved"}
 FnBlame(pre, fn, leaves) ==
